@@ -330,6 +330,40 @@ fn handle(line: &str) -> String {
             };
             format!("{}", Searcher::new().perft(&state, d, |_, _, _, _| {}))
         }
+        "mveq" => {
+            // mveq <ctorA> <7 args> <ctorB> <7 args>: `==`, agreement of `Hash`, and membership in a HashSet of the two
+            // constructed moves (castle: `castle <color> <K|Q> - - - -` so that both halves have 7 tokens)
+            fn build(p: &[&str]) -> Move {
+                if p[0] == "castle" {
+                    return Move::by_castling(color_of(p[1]), if p[2] == "K" { Side::King } else { Side::Queen });
+                }
+                let pi = PieceIndex::new(color_of(p[1]), piece_of(p[2].parse().unwrap()));
+                let from = Square::try_from(p[3].parse::<u8>().unwrap()).unwrap();
+                let to = Square::try_from(p[4].parse::<u8>().unwrap()).unwrap();
+                let cap = piece_of(p[5].parse().unwrap());
+                let pro = piece_of(p[6].parse().unwrap());
+                match p[0] {
+                    "move" => Move::by_moving(pi, from, to),
+                    "cap" => Move::by_capturing(pi, from, to, cap),
+                    "promo" => Move::by_promoting(pi, from, to, pro),
+                    "cappromo" => Move::by_capture_promoting(pi, from, to, cap, pro),
+                    _ => Move::by_en_passant(pi, from, to),
+                }
+            }
+            use std::collections::hash_map::DefaultHasher;
+            use std::hash::{Hash, Hasher};
+            let a = build(&parts[1..8]);
+            let b = build(&parts[8..15]);
+            let h = |m: &Move| {
+                let mut s = DefaultHasher::new();
+                m.hash(&mut s);
+                s.finish()
+            };
+            let mut set = std::collections::HashSet::new();
+            set.insert(a);
+            set.insert(b);
+            format!("eq={} hasheq={} set={}", (a == b) as u8, (h(&a) == h(&b)) as u8, set.len())
+        }
         "mv" => {
             // mv <ctor> <color w|b> <piece> <from> <to> <cap> <promo> | mv castle <color> <K|Q>
             let m = if parts[1] == "castle" {
